@@ -335,7 +335,7 @@ func main() {
 	x.core = hx.CaseFile{Name: "core", Imports: imports, Ok: "case_ok", Type: "tcase"}
 	x.rx = hx.CaseFile{Name: "rx", Imports: importsExt, Ok: "rx_case_ok", Type: "rxcase"}
 	x.muc = hx.CaseFile{Name: "muc", Imports: importsExt, Ok: "muc_case_ok", Type: "muccase"}
-	x.ibb = hx.CaseFile{Name: "ibb", Imports: importsExt, Ok: "ibb_case_ok", Type: "ibbcase"}
+	x.ibb = hx.CaseFile{Name: "ibb", Imports: importsExt, Ok: "ibbf_case_ok", Type: "ibbfcase"}
 	xmpp.VerifSetHook(hookDispatch)
 	currentPath = filepath.Join(o.Out, "current.json")
 	defer os.Remove(currentPath)
@@ -382,6 +382,8 @@ func main() {
 			x.ibbReplay(cc.Actions, "replay")
 		case "ibb-expect":
 			x.ibbExpectStall()
+		case "ibb-accept":
+			x.ibbOpenWithoutAccept()
 		case "receipts-first-use", "race":
 			for i := 0; i < 8; i++ {
 				x.rxConcurrentFirstUse()
@@ -401,6 +403,7 @@ func main() {
 			x.ibbReplay(acts, "corpus")
 		}
 		x.ibbExpectStall()
+		x.ibbOpenWithoutAccept()
 		for i := 0; i < 4; i++ {
 			x.rxConcurrentFirstUse()
 		}
